@@ -491,6 +491,7 @@ def run(fx, tier):
     # operation re-enters the same state forever.  So: every re-read issued after the Remaining Length is known is
     # dominated by  header bytes + Remaining Length <= capacity  (any arrangement of that linear inequality).
     frame_fit(fx, v)
+    recovery_after_internal_disconnect(fx, v)
     v.expect_min('R-BOUNDS', 25, 'advance/buffer/span sinks')
     v.expect_min('R-PRE', 12, 'decoder call sites')
     v.expect_min('R-DEREF', 10, 'cursor dereferences × instantiations')
@@ -614,3 +615,34 @@ def frame_fit(fx, v):
                     key='C19:R-PROGRESS:assemble_op:packet-fits-buffer', where='%s:%s' % (f.path_file(), l))
     if n == 0 and not v.violations:
         raise AnalysisBroken('assemble_op::on_read: no re-read after the Remaining Length is known was found')
+
+
+def recovery_after_internal_disconnect(fx, v):
+    """a malformed packet makes the reader issue an internal (non-terminal) DISCONNECT and then read on.  If that
+    DISCONNECT cannot be written because the connection was already replaced (try_again), the disconnect operation must
+    still complete WITHOUT error: read_message_op / sentry_op stop for good on any error from it (the client would never
+    read again: every later acknowledgement stays unread).  Shared shape with C09's disconnect_op graph."""
+    from reqops import entry_points
+    n = 0
+    for f in entry_points(fx, ('disconnect_op',)):
+        if f.tag != 'on_disconnect':
+            continue
+        for pi, p in enumerate(op_paths(fx, f)):
+            if p.ec_is('try_again') is not True:
+                continue
+            terminal = None
+            for c in p.conds():
+                if contains(p.origin(c, c.x), lambda m: m.get('k') == 'mem' and m.get('n') == 'terminal'):
+                    terminal = c.pol == 'T'
+            if terminal is not False:
+                continue
+            n += 1
+            end = p.end()
+            comp = p.entered('complete')
+            ok = end[0] == 'complete' and comp and ec_arg_class(p, p.arg(comp[0], 0))[0] == 'success'
+            v.check(ok, 'R-CGRAPH', '%s:path%d:internal-disconnect-after-reconnect' % (describe(f), pi),
+                    'an internal DISCONNECT that met a reconnect completes without error, so the reader that issued it keeps reading',
+                    key='C19:R-CGRAPH:disconnect_op:internal-disconnect-recovers', where=f.file)
+    # ... and the readers do stop on an error from it (that is why the above matters): recorded, not required
+    if n == 0 and not v.violations:
+        raise AnalysisBroken('disconnect_op::on_disconnect: non-terminal try_again edge not found')
